@@ -483,6 +483,10 @@ def handleMerge (req : Json) : Except String Json := do
   let E : Merge.Env := { O := O, cfg := cfg, S := S, render := render }
   match req.getObjVal? "want" with
   | .ok (.str "disjoint") => pure (Json.mkObj [("ok", .bool (Merge.disjoint S base ld rd))])
+  | .ok (.str "keywise") =>
+      pure (Json.mkObj [("ok", .bool (Merge.keywise base ld rd)),
+                        ("merged", reply (Merge.mergeApply E base ld rd) encJ),
+                        ("patched", reply (patch base (Merge.keywiseUnion ld rd)) encJ)])
   | _ => pure (reply (Merge.decideMerge E base ld rd) (fun ds => .arr (ds.map encMD).toArray))
 
 def handle (req : Json) : Except String Json := do
